@@ -30,7 +30,7 @@ pub struct C18;
 /// exercise every piece of mutable state; the rest are pairs that a lossy
 /// process-wide cache key would confuse (flags that look like a pattern prefix,
 /// same pattern under different flags, same text under the other dialect).
-const POOL: [(&str, &str, [&str; 2], &str); 14] = [
+const POOL: [(&str, &str, [&str; 2], &str); 16] = [
     ("(a)(b)?", "", ["aab", "xab -- 0123456789 0123456789 0123456789 0123456789 0123456789 -- a -- ab ...."], "<$1|$2>"),
     ("(?:a?|b)*c", "", ["cabc", "aab 0123456789 0123456789 0123456789 0123456789 0123456789 xx abc xx c tail.."], "<$0>"),
     ("(a)\\1|b", "i", ["aAb", "ab 0123456789 0123456789 0123456789 0123456789 0123456789 xx aA xx Aa tail.."], "<$1>"),
@@ -47,6 +47,11 @@ const POOL: [(&str, &str, [&str; 2], &str); 14] = [
     ("^a*$", "", ["b", "ab 0123456789 0123456789 0123456789 0123456789 0123456789 xx aa xx a tail.."], "<$0>"),
     // an optional group referenced later, behind a literal: registers of an earlier call
     ("x(a)?b\\1", "", ["xaba", "zaxba 0123456789 0123456789 0123456789 0123456789 0123456789 xb xaba tail.."], "-"),
+    // an alternation with a possibly-empty branch whose captures must not depend on which
+    // branch matched in an earlier call
+    ("^((?:ab?)*|c)c?d", "", ["cd", "ccd 0123456789 0123456789 0123456789 0123456789 0123456789 0123456789 tail."], "[$1]"),
+    // a non-ASCII literal prefix under flag i
+    ("\u{e9}\\d", "i", ["x\u{c9}1y", "abc 0123456789 0123456789 0123456789 0123456789 0123456789 \u{c9}2 \u{e9}3 tail"], "-"),
     // an invalid replacement string: the same error on every call
     ("b", "", ["abc", "xab 0123456789 0123456789 0123456789 0123456789 0123456789 -- b -- ab ...."], "x$y"),
 ];
@@ -804,7 +809,7 @@ impl Check for C18 {
         let depth = history_depth(ctx.tier);
         let npairs = pair_chunks(ctx.tier);
         Plan {
-            chunks: np + ns * nb + 2 + pair_chunks(ctx.tier) + FATIGUE.len() as u64,
+            chunks: np + ns * nb + 2 + pair_chunks(ctx.tier) + FATIGUE.len() as u64 + POOL.len() as u64,
             layer_of: Box::new(move |c| {
                 if c < np {
                     format!("histories to depth {}", depth)
@@ -816,8 +821,10 @@ impl Check for C18 {
                     "free-running first-call supplement (sampling)".to_string()
                 } else if c < np + ns * nb + 2 + npairs {
                     "ordered pairs of compilations on one thread".to_string()
-                } else {
+                } else if c < np + ns * nb + 2 + npairs + FATIGUE.len() as u64 {
                     "long sequences of compilations on one thread".to_string()
+                } else {
+                    "a dozen failing calls, then every call".to_string()
                 }
             }),
             description: format!(
@@ -959,8 +966,10 @@ impl Check for C18 {
             let k = chunk - (np + scs.len() as u64 * nb + 2);
             if k < pair_chunks(ctx.tier) {
                 pair_chunk(ctx.tier, k, out);
-            } else {
+            } else if k < pair_chunks(ctx.tier) + FATIGUE.len() as u64 {
                 fatigue_chunk((k - pair_chunks(ctx.tier)) as usize, out);
+            } else {
+                call_fatigue_chunk((k - pair_chunks(ctx.tier) - FATIGUE.len() as u64) as usize, out);
             }
             return;
         }
@@ -1209,6 +1218,54 @@ fn fatigue_chunk(k: usize, out: &mut ChunkOut) {
     }
     out.inc("nontrivial");
     out.sample(J::obj(vec![("sequence", J::s(what)), ("repeated", J::i(FATIGUE_REPEAT)), ("probes", J::i(n))]));
+}
+
+// ---------------------------------------------------------------------------
+// many calls on one object
+
+/// Twelve calls that find nothing (and twelve that do) on a fresh object, then every
+/// API on both pool inputs: the observations must be those of the solo table (counters
+/// and adaptive shortcuts inside a Regex).
+fn call_fatigue_chunk(p: usize, out: &mut ChunkOut) {
+    let mut cache = HashMap::new();
+    for warm in ["\u{0}\u{0}", "WARM-WITH-FIRST-INPUT"] {
+        let mut w = World::new();
+        w.exec(Step::Compile(p));
+        if w.objs.is_empty() {
+            continue;
+        }
+        for _ in 0..12 {
+            let inp = if warm.starts_with("WARM") { POOL[p].2[0] } else { warm };
+            let _ = imp::is_match(&w.objs[0].1, inp);
+            let _ = imp::replace_all(&w.objs[0].1, inp, "");
+        }
+        out.add("api_steps", 24);
+        for i in 0..2 {
+            for s in [Step::IsMatch(0, i), Step::Replace(0, i), Step::OpenTok(0, i), Step::OpenAn(0, i)] {
+                let want = solo(&mut cache, &w, s);
+                let shown = show_step(&s, Some(&w));
+                let got = w.exec(s);
+                out.inc("states");
+                out.inc("validated");
+                if got != want {
+                    let mut case = Case::new("CALLS", POOL[p].0, pool_flags(p).0);
+                    case.api = "history".into();
+                    case.input = format!("12 x is_match + replace_all on {:?}, then {}", if warm.starts_with("WARM") { POOL[p].2[0] } else { warm }, shown);
+                    let d = J::obj(vec![
+                        ("property", J::s("C18")),
+                        ("kind", J::s("StepDiffersFromSolo")),
+                        ("sequence", J::s(&case.input)),
+                        ("expected", J::s(&want)),
+                        ("observed", J::s(&got)),
+                        ("note", J::s("expected = the same call on a fresh Regex in a pristine process")),
+                    ]);
+                    out.failures.push(Failure { key: case.key("C18", "StepDiffersFromSolo"), detail: d });
+                }
+            }
+        }
+    }
+    out.inc("nontrivial");
+    out.sample(J::obj(vec![("pattern", J::s(POOL[p].0)), ("warm_up", J::s("12 calls that find nothing / 12 calls on the first pool input"))]));
 }
 
 // ---------------------------------------------------------------------------
